@@ -1,9 +1,102 @@
-(* Props/C12.v — placeholder while the harness is brought up; replaced by the full statements. *)
-From PNA Require Import Base Name Update.
-Theorem C12_placeholder : forall fs p f, file (put fs p f) p = Some f.
-Proof. intros. unfold put. cbn. destruct (bytes_eqb p p) eqn:E; [reflexivity|]. exfalso.
-  assert (forall l, bytes_eqb l l = true).
-  { induction l; cbn; auto. unfold byte_eqb. rewrite N.eqb_refl. cbn. auto. }
-  rewrite H in E. discriminate. Qed.
-Check C12_placeholder : forall fs p f, file (put fs p f) p = Some f.
-Print Assumptions C12_placeholder.
+(* Props/C12.v — C12: a command that fails part-way leaves the archive intact and readable.
+   Only statements, closed by `exact`, pinned by `Check`, audited by `Print Assumptions`.
+
+   Model (Model/Update.v, part 2): a command is a script of effects over a small file system (path -> entries
+   written so far + "end marker present"); `EItem k` is the point where the k-th processed item is read,
+   decoded or built and may fail, upon which the command returns at once (the `?` operator).
+     rewrite_script : run_transform_entry (delete, strip, chmod, chown, xattr, acl, migrate): create the
+                      temporary file, per entry read (item) and write, finalize, rename onto the target;
+     update_script  : the same with the pass over the existing entries (items 0..n-1) followed by the
+                      re-created and new entries (items n..);
+     append_script  : the repaired append (db651618): every entry is built before the first write.
+   `fails_at s k` = item k occurs in the script; `run_failing s fs k` = the file system the failing run leaves.
+   Outside the model (the property quantifies over failures of processed items): a failure of the final rename
+   itself (cross-device copy interrupted, disk full), process crashes, and the temporary file a failing
+   rewriting command leaves in TMPDIR (the model predicts it, the check reports it; it never takes the
+   archive's place). *)
+From PNA Require Import Base Name Update BaseFacts UpdateFacts.
+Open Scope N_scope.
+
+(* rewriting commands: whichever item fails, the target path holds what it held *)
+Theorem C12_rewrite_atomic : forall target tmp tr a k fs, tmp <> target ->
+  fails_at (rewrite_script tmp target tr a) k ->
+  file (run_failing (rewrite_script tmp target tr a) fs k) target = file fs target.
+Proof. exact rewrite_atomic. Qed.
+Check C12_rewrite_atomic : forall target tmp tr a k fs, tmp <> target ->
+  fails_at (rewrite_script tmp target tr a) k ->
+  file (run_failing (rewrite_script tmp target tr a) fs k) target = file fs target.
+Print Assumptions C12_rewrite_atomic.
+
+Theorem C12_update_atomic : forall target tmp a kept new k fs, tmp <> target ->
+  fails_at (update_script tmp target a kept new) k ->
+  file (run_failing (update_script tmp target a kept new) fs k) target = file fs target.
+Proof. exact update_atomic. Qed.
+Check C12_update_atomic : forall target tmp a kept new k fs, tmp <> target ->
+  fails_at (update_script tmp target a kept new) k ->
+  file (run_failing (update_script tmp target a kept new) fs k) target = file fs target.
+Print Assumptions C12_update_atomic.
+
+(* the repaired append: a failing input leaves the whole file system as it was *)
+Theorem C12_append_atomic : forall target new k fs,
+  fails_at (append_script target new) k -> run_failing (append_script target new) fs k = fs.
+Proof. exact append_atomic. Qed.
+Check C12_append_atomic : forall target new k fs,
+  fails_at (append_script target new) k -> run_failing (append_script target new) fs k = fs.
+Print Assumptions C12_append_atomic.
+
+(* success: a terminated archive with the intended content; the temporary file is gone *)
+Theorem C12_success_valid_rewrite : forall target tmp tr a fs, tmp <> target ->
+  let fs' := run_ok (rewrite_script tmp target tr a) fs in
+  file fs' target = Some (mkF (transformed tr a) true) /\ file fs' tmp = None.
+Proof. exact rewrite_success. Qed.
+Check C12_success_valid_rewrite : forall target tmp tr a fs, tmp <> target ->
+  let fs' := run_ok (rewrite_script tmp target tr a) fs in
+  file fs' target = Some (mkF (transformed tr a) true) /\ file fs' tmp = None.
+Print Assumptions C12_success_valid_rewrite.
+
+Theorem C12_success_valid_append : forall target a new fs,
+  file fs target = Some (mkF a true) ->
+  file (run_ok (append_script target new) fs) target = Some (mkF (append a new) true).
+Proof. exact append_success. Qed.
+Check C12_success_valid_append : forall target a new fs,
+  file fs target = Some (mkF a true) ->
+  file (run_ok (append_script target new) fs) target = Some (mkF (append a new) true).
+Print Assumptions C12_success_valid_append.
+
+Theorem C12_success_valid_update : forall target tmp a kept new fs, tmp <> target ->
+  let fs' := run_ok (update_script tmp target a kept new) fs in
+  file fs' target = Some (mkF (select a kept ++ new) true) /\ file fs' tmp = None.
+Proof. exact update_success. Qed.
+Check C12_success_valid_update : forall target tmp a kept new fs, tmp <> target ->
+  let fs' := run_ok (update_script tmp target a kept new) fs in
+  file fs' target = Some (mkF (select a kept ++ new) true) /\ file fs' tmp = None.
+Print Assumptions C12_success_valid_update.
+
+(* the entries the script of update writes as they are = the entries the pass of C11 keeps *)
+Theorem C12_update_script_agrees : forall excl cond a targets refreshed,
+  select a (pass_flags excl cond a targets refreshed) = fst (fst (update_pass excl cond a targets refreshed)).
+Proof. exact select_pass_flags. Qed.
+Check C12_update_script_agrees : forall excl cond a targets refreshed,
+  select a (pass_flags excl cond a targets refreshed) = fst (fst (update_pass excl cond a targets refreshed)).
+Print Assumptions C12_update_script_agrees.
+
+(* D14, on append as it was before the fix: the second input fails, the archive is left without end marker *)
+Theorem C12_append_unrepaired_refuted :
+  exists a new k, fails_at (append_script_orig (lit "x.pna") new) k /\
+    result_file (mkF a true) (run_failing (append_script_orig (lit "x.pna") new) [(lit "x.pna", mkF a true)] k) (lit "x.pna") = Broken.
+Proof. exact append_unrepaired_breaks. Qed.
+Check C12_append_unrepaired_refuted :
+  exists a new k, fails_at (append_script_orig (lit "x.pna") new) k /\
+    result_file (mkF a true) (run_failing (append_script_orig (lit "x.pna") new) [(lit "x.pna", mkF a true)] k) (lit "x.pna") = Broken.
+Print Assumptions C12_append_unrepaired_refuted.
+
+(* premises are satisfiable, and the verdict the check observes: the same inputs through the repaired scripts *)
+Example C12_premises_met :
+  fails_at (append_script (lit "x.pna") d14_new) 1
+  /\ result_file (mkF d14_a true) (run_failing (append_script (lit "x.pna") d14_new) [(lit "x.pna", mkF d14_a true)] 1) (lit "x.pna") = Same
+  /\ lit "tmp" <> lit "x.pna"
+  /\ fails_at (rewrite_script (lit "tmp") (lit "x.pna") Some d14_a) 0
+  /\ result_file (mkF d14_a true) (run_failing (rewrite_script (lit "tmp") (lit "x.pna") Some d14_a) [(lit "x.pna", mkF d14_a true)] 0) (lit "x.pna") = Same.
+Proof.
+  repeat split; try (vm_compute; reflexivity); try discriminate; unfold fails_at; cbn; auto.
+Qed.
